@@ -32,10 +32,14 @@ Univ(rl, c1, b1, b6, b7, d1) == << UArt("g1:b", "g1", "b", <<UVer(1, b1), UVer(6
 \* nested quantifiers, not one set of universes: TLC enumerates the initial states lazily (several hundred thousand large records)
 Init == \E rl \in RootLists, c1 \in COpts, b1 \in (IF Family = "full" THEN {<<>>, <<Dd(1)>>, <<[Dd(1) EXCEPT !.opt = TRUE]>>} ELSE BOpts),
            b6 \in (IF Family = "full" THEN BOpts ELSE {<<>>, <<Dd(5)>>}), b7 \in BOpts, d1 \in DOpts : MRInit(Univ(rl, c1, b1, b6, b7, d1))
+\* Family = "file": the universes are read from a file (the seeded universes of the check); the model's result for each is
+\* what the documented algorithm returns there, which the trace specification uses to recognise finding C07-F25 exactly
+FileCases == TLCEval(ndJsonDeserialize(IOEnv.VERIF_CASES))
+InitFile == \E i \in 1..Len(FileCases) : MRInit(FileCases[i].universe)
 Next == MRNext
-Emit == (phase \in {"done", "fatal"}) =>
+Emit == (phase \in {"done", "fatal"} \/ (phase = "incompatible" /\ attempt = MaxAttempts)) =>
           CSVWrite("%1$s", <<ToJson([universe |-> U, root |-> Root, softonly |-> FALSE, attempts |-> attempt,
-                                      model |-> [fatal |-> (phase = "fatal"), nodes |-> nodes, edges |-> edges]])>>, OutFile)
+                                      model |-> [fatal |-> (phase # "done"), nodes |-> nodes, edges |-> edges]])>>, OutFile)
 \* liveness on the model: under weak fairness of the step relation every run stops (checked in the quick configuration)
 Spec == Init /\ [][Next]_mrvars /\ WF_mrvars(Next)
 EventuallyStops == <>(phase \in {"done", "fatal"})
